@@ -34,7 +34,50 @@ def correspondence(ctx, drv, sis, n_cases, tag):
             ctx.violation("%s: %s" % (tag, tv), dict(entry=tag, case=c, tape=impl["tape"], model_trace=m["trace"][:60]))
         elif d is not None:
             ctx.disagreement(tag + "-tape", dict(entry=tag, case=c, tape=impl["tape"], diff=d))
+    generated_model(ctx, tag, cases, impls, reqs)
     return cases, impls, resps
+
+
+def generated_model(ctx, tag, cases, impls, reqs):
+    """the Lean code GENERATED from the source of Gillespie_SIR / Gillespie_SIS (harness/pyfunc2lean.py ->
+    Gen/GillespieGen.lean, calling the generated `_ListDict_` code), run by its own driver on the same scripted draws
+    as the implementation: validates the translator and ties the refinement theorems (Props/C01e.lean) to the code.
+    Compared: the RNG-call trace (clock rates, candidate lists), times, S, I, R and, with full data, the transmission
+    list; exception names."""
+    import fcntl, subprocess, os, json, pyfunc2lean, pyclass2lean
+    lean = common.LEAN
+    os.makedirs(os.path.join(lean, ".audit"), exist_ok=True)
+    with open(os.path.join(lean, ".audit", "gengill.lock"), "w") as lock:
+        fcntl.flock(lock, fcntl.LOCK_EX)
+        try:
+            _, e1 = pyclass2lean.regenerate()
+            _, e2 = pyfunc2lean.regenerate()
+            errors = dict(e1, **e2)
+        except Exception as e:
+            errors = {"translator": "crashed: %r" % e}
+        if errors:
+            ctx.disagreement("generated-gillespie:translation", dict(entry=tag, errors=errors))
+            return
+        p = common.lake(["build", "drivergill"])
+    if p.returncode != 0:
+        ctx.disagreement("generated-gillespie:build", dict(entry=tag, log="\n".join(
+            l for l in (p.stdout + p.stderr).splitlines() if "error" in l)[:1500]))
+        return
+    exe = os.path.join(lean, ".lake", "build", "bin", "drivergill")
+    data = "\n".join(json.dumps(dict(r, full=bool(c["full"])), separators=(",", ":")) for r, c in zip(reqs, cases)) + "\n"
+    q = subprocess.run([exe], input=data, capture_output=True, text=True)
+    lines = q.stdout.splitlines()
+    if q.returncode != 0 or len(lines) != len(reqs):
+        raise RuntimeError("drivergill crashed: " + q.stderr[-1000:])
+    for c, impl, line in zip(cases, impls, lines):
+        g = json.loads(line)
+        ctx.count("%s:generated-model-runs" % tag)
+        d = sims.compare_gillespie(c, impl, g)
+        if d is None and impl.get("ok") and c["full"] and "transmissions" in impl:
+            if impl["transmissions"] != g.get("transmissions"):
+                d = "transmissions differ: impl %s generated %s" % (impl["transmissions"][:8], (g.get("transmissions") or [])[:8])
+        if d is not None:
+            ctx.disagreement("generated-%s-tape" % tag, dict(entry=tag, case=c, tape=impl["tape"], diff=d))
 
 
 def one_step_law(case, depth):
